@@ -186,9 +186,12 @@ def _update_inventory(context, rp, inventory):
             cannot be found in the DB.
     """
     rc_id = context.rc_cache.id_from_string(inventory.resource_class)
+    # Compare-and-swap the generation first: if a racing request has changed
+    # the provider (for example deleted this inventory) since the caller read
+    # it, that is a concurrent update, not a missing inventory.
+    rp.increment_generation()
     exceeded = _update_inventory_for_provider(
         context, rp, [inventory], set([rc_id]))
-    rp.increment_generation()
     return exceeded
 
 
